@@ -5,15 +5,22 @@ MANIFEST = dict(
     module="StyleInh", ref="§5 C14",
     text="The reference resolver of StyleInh.tla (nearest definition along basedOn with a visited set) is model-checked over "
          "every registry of the bound (all basedOn graphs incl. self loops, cycles and missing parents, all set/unset masks, "
-         "all queried ids) against an independent bounded-search characterisation, a recursive law and a frame property; "
-         "TLC then enumerates every (registry, queried id) input once and generates random operation sequences, each is "
-         "executed on real StyleManager objects (every one of the 18 paragraph/character elements in turn playing the "
-         "enumerated mask, in a child process because a based-on cycle can kill the process) and the owner of every "
-         "element of every result, the deep fingerprint of the registry before/after every call and the independence of "
-         "clones are judged by StyleInh_Trace.tla. Exhaustive small-scope enumeration is the right level for a claim over "
-         "all graphs and attribute subsets of a hand-written per-attribute merge.",
-    technique="TLA+ spec StyleInh; TLC exhaustive MC of the reference resolver + TLC-enumerated inputs and simulated "
-              "sequences replayed on the library (supervised child process) + TLC trace judge",
+         "all queried ids) against an independent bounded-search characterisation, a recursive law and a frame property; the "
+         "pair (registry, copy taken by Clone) is model-checked as a machine of two registries with separate histories "
+         "(snapshot and isolation as action properties). TLC then enumerates every (registry, queried id) input once, every "
+         "read / change / read-again history with a copy taken before the change and read for the first time after it, "
+         "every based-on graph that refers to a parent by an alias of a style (its display name, its id in other letter "
+         "case or with a blank, the label of the library's predefined tables: all undefined ids), every registry written "
+         "as a styles part and handed to the three XML loaders, and generates random operation sequences over both "
+         "registries; each is executed on real StyleManager objects (every one of the 18 paragraph/character elements in "
+         "turn playing the enumerated mask, in a child process because a based-on cycle can kill the process). The copy is "
+         "never looked at by the executor except through the operations the behaviour addresses to it, so when a style of "
+         "the copy is first read is part of the behaviour. The owner of every element of every result, the deep fingerprint "
+         "of the registry before/after every call and the independence of the two registries are judged by "
+         "StyleInh_Trace.tla. Exhaustive small-scope enumeration is the right level for a claim over all graphs and "
+         "attribute subsets of a hand-written per-attribute merge.",
+    technique="TLA+ spec StyleInh; TLC exhaustive MC of the reference resolver and of the registry/copy pair + TLC-enumerated "
+              "inputs and histories and simulated sequences replayed on the library (supervised child process) + TLC trace judge",
 )
 
 LEVEL = "model_checking"
@@ -22,8 +29,12 @@ RULE = ("inputs = every registry over N style ids (basedOn of each style in ids 
         "in bounds × every queried id incl. an undefined one, enumerated by TLC exactly once; each input is executed with "
         "20 concrete attribute→slot assignments (each of the 18 formatting elements alone in x with the other 17 in y; "
         "paragraph-level vs character-level both ways) through Load, GetStyleWithInheritance, ApplyStyleToXML, "
-        "GetStyleInfo (+ Clone ops, resolution on the clone, write-through-the-result probe); plus seeded random "
-        "sequences of AddStyle/RemoveStyle/CreateCustomStyle/queries/listings/Clone; judged step by step by StyleInh_Trace.tla")
+        "GetStyleInfo (+ Clone ops, resolution on the clone, write-through-the-result probe); histories = every 2-style "
+        "registry × queried id × single registry change (AddStyle / RemoveStyle / CreateCustomStyle / in-place edit): resolve, "
+        "Clone, change, resolve, then on the copy: first read of the same id, Peek, the same change, Peek; alias graphs = "
+        "every 2-style graph with a parent named by an alias (name / case / blank / label) × every id and alias queried; "
+        "styles parts = every 2-style registry through ParseStylesFromXML / MergeStylesFromXML / LoadStylesFromDocument; plus "
+        "seeded random sequences of all operations on the registry and on its copy; judged step by step by StyleInh_Trace.tla")
 
 ALLOPS = {"AddStyle", "RemoveStyle", "Create", "Edit", "Resolve", "ToXML", "Info", "List", "MutRes", "CloneSwap", "CloneDrop",
           "Clone", "OnClone", "LoadXML"}
@@ -186,6 +197,22 @@ def pipeline1(ctx, bg, cases_by):
         "they are logged as skipped (see op_outcomes) and judged by nothing",
         "writing through the object returned by GetStyleWithInheritance changes the registry (the result is the registered "
         "object or shares its parts); C14 constrains resolution, not the caller, so this is recorded, not judged",
+        "the copy taken by the abstract operation Clone is observed only through the operations addressed to it (OnClone; "
+        "Peek = GetStyle + StyleExists of every id of the behaviour and GetAllStyles); between two Peeks the judge follows "
+        "the copy by the specification alone (the source as it was when Clone was called + what was addressed to the copy), "
+        "the source is projected and fingerprinted after every step, also after steps addressed to the copy",
+        "an in-place edit (Edit) adds formatting elements to the registered object and re-points its basedOn (through the "
+        "existing w:basedOn object or by replacing it, per behaviour); it does not remove elements or rewrite the values "
+        "of elements the style already sets",
+        "aliases: display name = 'name of <id>' (every style of a behaviour that uses a name alias gets one), other letter "
+        "case = ASCII letters swapped, blank = id followed by a space, label = the entry of GetPredefinedStyleNames / "
+        "GetPredefinedStyleConfigs for that id; an id without such a form (no letters, the other-case form is an id of the "
+        "behaviour too, not a predefined id) is concretised as just another undefined id",
+        "what an XML loader does with a styles part (accept it or not, which registry results) is outside C14: it is "
+        "recorded under observations_not_judged; C14 is judged on whatever registry the loader left behind. On this tree "
+        "the three loaders reject every input (see observations_not_judged), so the styles-part origin currently "
+        "contributes no registries; LoadStylesFromDocument then re-registers the predefined styles (behaviours that use "
+        "it take ids that are not predefined)",
     ]
     if ctx.wzh is None:
         ctx.build_harness()
@@ -267,7 +294,7 @@ def pipeline1(ctx, bg, cases_by):
     bg.join()
     ctx.extra_cov["bounds"] = bounds
     ctx.extra_cov["variants_per_behaviour"] = 20
-    ctx.extra_cov["exhaustive_scope"] = ("all (registry, queried id) inputs of bounds.enum*/rmr* are enumerated and executed; resolver "
+    ctx.extra_cov["exhaustive_scope"] = ("all (registry, queried id) inputs / histories of bounds.enum*/rmr*/alias*/xml* are enumerated and executed; resolver "
                                          "calls counted as skipped in op_outcomes were not executed (budget rule after a call that "
                                          "did not return); the random sequences (bounds.sim) are a sample, not exhaustive")
     return ctx.finish(LEVEL, RULE)
